@@ -537,6 +537,16 @@ def run(ctx, col: Collector):
         for cls, (attr, _) in sorted(stores.items()):
             if cls not in produced:
                 continue
+            # `.add(...)` calls / `.build()` results the rule could not attribute to a collection: no verdict from absence
+            unread = [c for c in ast.walk(bd.node) if isinstance(c, ast.Call) and isinstance(c.func, ast.Attribute) and c.func.attr in ('add', 'build')
+                      and not (c.func.attr == 'add' and norm(c.func.value) == 'self.database' and c.args and norm(c.args[0]).endswith('.build()'))
+                      and not (c.func.attr == 'build' and any(isinstance(p_, ast.Call) and getattr(p_.func, 'attr', '') == 'add' and norm(p_.func.value) == 'self.database'
+                                                              and p_.args and p_.args[0] is c for p_ in ast.walk(bd.node)))]
+            mentions = any(norm(x) == attr for x in ast.walk(bd.node) if isinstance(x, ast.Attribute))
+            if built.get(attr, 0) == 0 and (unread and mentions):
+                col.unk('C01-wiring', f'build_database:{attr}', f'build_database reads {attr} and calls `{norm(unread[0])[:60]}`, but how the built objects reach the database '
+                        f'is not recognised', node=bd.node, file=bd.file)
+                continue
             col.check(built.get(attr, 0) == 1, 'C01-wiring', f'build_database:{attr}', f'{attr} is built into the database exactly once',
                       f'build_database builds the collection {attr} {built.get(attr, 0)} times (every {cls} must be built and added exactly once)',
                       node=bd.node, file=bd.file)
